@@ -15,16 +15,29 @@
     first/last::= -1 nil | -2 panic | stamp
     code      ::= 0  Exist false and GetItem ErrNotFound
                 | stamp+1  Exist true and GetItem returned that item
-                | negative: any other combination *)
+                | negative: any other combination
+
+    Layer 2, one history on a skiplist.SkipList ([CSkip]): [rnd] are the
+    [rand.Int() & 0xFFFF] results in the order randomLevel drew them; values are
+    integer ids.
+
+    step      ::= 3 score val ret snap               Insert
+                | 4 score ret snap                   Delete
+                | 5 score ret found fs fv snap       Find               (ret: 0, -99 = panic)
+                | 6 score ret found fs fv snap       FindGreaterOrEqual
+                | 7 score val ret snap               v := Find(score); if v != nil { v.Value = val }; ret = found
+    snap      ::= (empty) | len level findcount hasfirst fs fv haslast ls lv
+                  n (score val)^n  m (score val)^m   (WalkS; Iterator.Last + Prev until nil) *)
 From Coq Require Import List ZArith NArith Bool.
-From C33 Require Import Lib.Harness C24.Model C24.Spec.
+From C33 Require Import Lib.Harness C24.Model C24.Spec C24.SkipModel.
 Import ListNotations.
 Open Scope Z_scope.
 
 (** [det]: two more runs of the same history under different math/rand seeds
     gave identical observables. *)
 Inductive case :=
-| CHist (cap nkeys : Z) (det : bool) (steps : list (list Z)).
+| CHist (cap nkeys : Z) (det : bool) (steps : list (list Z))
+| CSkip (rnd : list Z) (steps : list (list Z)).
 
 Record snap := mkSnap {
   s_first : Z; s_last : Z; s_size : Z; s_bytes : Z;
@@ -184,8 +197,128 @@ Fixpoint spec_ok (cap : Z) (all : list item) (l : list item) (steps : list dstep
       else 2%N
   end.
 
+(** * Layer 2: SkipList histories *)
+Record ssnap := mkSS {
+  ss_len : Z; ss_level : Z; ss_findc : Z;
+  ss_first : option (Z * Z); ss_last : option (Z * Z);
+  ss_fwd : list (Z * Z); ss_bwd : list (Z * Z) }.
+
+Inductive sires := SIInt (n : Z) | SIVal (ret : Z) (o : option (Z * Z)).
+
+Definition sdstep : Type := (sop Z * sires * option ssnap)%type.
+
+Definition opt_entry (has s v : Z) : option (Z * Z) := if has =? 0 then None else Some (s, v).
+
+Definition take_counted (l : list Z) : option (list (Z * Z) * list Z) :=
+  match l with
+  | n :: rest => if (n <? 0) || (5000 <? n) then None else take_pairs (Z.to_nat n) rest
+  | [] => None
+  end.
+
+Definition decode_ssnap (l : list Z) : option (option ssnap) :=
+  match l with
+  | [] => Some None
+  | len :: level :: fc :: hf :: fs :: fv :: hl :: ls :: lv :: rest =>
+      match take_counted rest with
+      | Some (fwd, rest2) =>
+          match take_counted rest2 with
+          | Some (bwd, []) =>
+              Some (Some (mkSS len level fc (opt_entry hf fs fv) (opt_entry hl ls lv) fwd bwd))
+          | _ => None
+          end
+      | None => None
+      end
+  | _ => None
+  end.
+
+Definition decode_sstep (l : list Z) : option sdstep :=
+  match l with
+  | 3 :: s :: v :: ret :: rest =>
+      match decode_ssnap rest with Some sn => Some (SInsert s v, SIInt ret, sn) | None => None end
+  | 4 :: s :: ret :: rest =>
+      match decode_ssnap rest with Some sn => Some (SDelete s, SIInt ret, sn) | None => None end
+  | 5 :: s :: ret :: f :: fs :: fv :: rest =>
+      match decode_ssnap rest with
+      | Some sn => Some (SFind s, SIVal ret (opt_entry f fs fv), sn) | None => None end
+  | 6 :: s :: ret :: f :: fs :: fv :: rest =>
+      match decode_ssnap rest with
+      | Some sn => Some (SGe s, SIVal ret (opt_entry f fs fv), sn) | None => None end
+  | 7 :: s :: v :: ret :: rest =>
+      match decode_ssnap rest with Some sn => Some (SUpdate s v, SIInt ret, sn) | None => None end
+  | _ => None
+  end.
+
+Fixpoint decode_s (steps : list (list Z)) : option (list sdstep) :=
+  match steps with
+  | [] => Some []
+  | l :: tl =>
+      match decode_sstep l, decode_s tl with
+      | Some d, Some ds => Some (d :: ds)
+      | _, _ => None
+      end
+  end.
+
+Definition entry_eqb (a b : Z * Z) : bool := (fst a =? fst b) && (snd a =? snd b).
+Definition entries_eqb := list_eqb entry_eqb.
+Definition oentry_eqb := option_eqb entry_eqb.
+
+Definition sres_eqb (r : sres Z) (i : sires) : bool :=
+  match r, i with
+  | SInt n, SIInt m => n =? m
+  | SVal o, SIVal ret o' => (ret =? 0) && oentry_eqb o o'
+  | _, _ => false
+  end.
+
+Definition ok_entries (o : outcome (list (Z * Z))) (l : list (Z * Z)) : bool :=
+  match o with Ok l' => entries_eqb l' l | _ => false end.
+
+(** model side: the multi-level model, fed with the draws of the run *)
+Definition ssnap_model (sk : skl Z) (s : ssnap) : bool :=
+  (Z.of_nat (scount sk) =? ss_len s) && (Z.of_nat (slevel sk) =? ss_level s)
+  && (sfindc sk =? ss_findc s)
+  && match sk_first sk with Ok o => oentry_eqb o (ss_first s) | _ => false end
+  && oentry_eqb (sk_last sk) (ss_last s)
+  && ok_entries (sk_walk sk) (ss_fwd s) && ok_entries (sk_back sk) (ss_bwd s).
+
+Fixpoint smodel_ok (sk : skl Z) (rnd : list Z) (steps : list sdstep) : bool :=
+  match steps with
+  | [] => true
+  | (o, r, s) :: tl =>
+      match sk_step o sk rnd with
+      | Ok (sk', rnd', r') =>
+          sres_eqb r' r
+          && match s with None => true | Some sn => ssnap_model sk' sn end
+          && smodel_ok sk' rnd' tl
+      | _ => false
+      end
+  end.
+
+(** spec side: the level-0 sorted list; after a snapshot the history goes on
+    from the list the implementation showed. *)
+Definition ssnap_spec (l : list (Z * Z)) (s : ssnap) : bool :=
+  entries_eqb l (ss_fwd s) && entries_eqb (rev l) (ss_bwd s)
+  && (Z.of_nat (length l) =? ss_len s)
+  && oentry_eqb (hd_error l) (ss_first s) && oentry_eqb (last_opt l) (ss_last s).
+
+Fixpoint sspec_ok (l : list (Z * Z)) (steps : list sdstep) : bool :=
+  match steps with
+  | [] => true
+  | (o, r, s) :: tl =>
+      let (l', r') := l0_step o l in
+      sres_eqb r' r
+      && match s with
+         | None => sspec_ok l' tl
+         | Some sn => ssnap_spec l' sn && sspec_ok (ss_fwd sn) tl
+         end
+  end.
+
 Definition check_case (c : case) : verdict :=
   match c with
+  | CSkip rnd steps =>
+      match decode_s steps with
+      | None => (false, false, 0%N)
+      | Some ds => mk_verdict (smodel_ok (sk_new (-1) 0) rnd ds) (sspec_ok [] ds)
+      end
   | CHist cap nkeys det steps =>
       match decode 0%N steps with
       | None => (false, false, 0%N)
